@@ -120,6 +120,14 @@ PROPS = {
              "each history with prescribed results and globals; the driver replays them on the real VMs and compares results and all globals of both VMs after "
              "every operation.",
         note=_TRUST + "One library program (scalar, array, struct, vector globals; aggregate locals; recursion); host values are deep-copied by the driver."),
+    "C17": dict(
+        claimed=True, level="model_checking",
+        technique="three-process store/load conformance: listing, IR projection and VM behaviour of the module reloaded by the real loader compared with the compiled module; the reloaded module's results judged against the TLA+ semantics NslSem and its functions checked by the TLA+ spec IRWellFormed (both run by TLC)",
+        text="Generated programs (int and uint mixed, structs, arrays, calls, vectors) and optimiser-family members are compiled at both levels in one process, "
+             "stored by nslc.py -o in a second and loaded by FilesystemModuleLoader in a third; the reload must list identically, have the same observable "
+             "instruction/operand/constant structure and return the same values and globals on every input; TLC runs NslSem on every case (so a reload that "
+             "agrees with a wrong original is still caught against the language) and IRWellFormed over the reloaded functions.",
+        note=_TRUST + "Equality of listing / projection / repr of results is plain comparison, not model checking; the model-checked part is the reference outcome and IR well-formedness."),
     "C18": dict(
         claimed=True, level="model_checking",
         technique="TLA+ specification CompileHistory: TLC generates every request sequence to a length (enumeration mode); the sequences are replayed in fresh processes under several hash seeds and the recorded events are validated by the same specification in trace mode (one digest per request, whatever came before)",
